@@ -147,7 +147,8 @@ def run_scenario(sc: dict[str, Any]) -> dict[str, Any]:
                  'indexed': int(max([v for k, v in index_times.items() if k in initial] or [0]) * 1000),
                  'first': int(first_change['t'] * 1000), 'expect_handled': True, 'limit': gate.get('limit') or 0,
                  'nobjects': len(gate['things']) + len(gate['widgets'])}
-        return {'id': sc['id'], 'steps': steps, 'gate': g, 'stall': stall, 'scenario': sc}
+        from vf import inventory
+        return {'id': sc['id'], 'steps': steps, 'gate': g, 'stall': stall, 'scenario': sc, 'mem': inventory.traces_of(sim.recorder.events, sc['id'])}
     finally:
         sim.close()
 
@@ -248,6 +249,21 @@ def run(ctx, rep) -> None:
         elif v != 'ok':
             rep.classified(v if v == 'F16' else '', f'{t["id"]}: {v}', payload={k: t[k] for k in ('id', 'gate', 'scenario')})
     rep.sample({'steps': traces[0]['steps'][:4]}); rep.sample({'gate': traces[-3]['gate'], 'scenario': traces[-3]['scenario']['gate']})
+    # what the operator remembered about the objects (several of them, some re-created under their names): one memory per uid, its own
+    # indexing memory, forgotten with the DELETED event -- Inventory.tla
+    from vf import inventory, tlc as _tlc
+    r_ = _tlc.run('MC_Inventory', 'MC_Inventory.cfg'); rep.add_tlc('MC_Inventory', r_)
+    if not r_.ok:
+        rep.violation(f'Inventory.tla: {r_.violated}')
+    mts = [m for t in traces for m in t.get('mem', [])]
+    mv = inventory.judge(mts, rep)
+    rep.evaluations += len(mts); rep.traces += len(mts)
+    for m in mts:
+        if len({e['uid'] for e in m['events']}) > 2:
+            rep.nontrivial([(e['ev'], e['uid']) for e in m['events']])
+        if mv.get(m['id'], 'accepted') != 'accepted':
+            rep.violation(f'{m["id"]}: the memories of the operator are not a behaviour of Inventory.tla: {mv[m["id"]]}', payload=m)
+    rep.extra['inventory_traces'] = len(mts)
     # the readiness gate is a ToggleSet: the real aiotoggles classes (and aiotime.sleep) against Kits.tla
     from vf import kits
     kits.stage(ctx, rep, 'the readiness gate (aiotoggles)')
